@@ -81,8 +81,23 @@ def run(cmd, timeout=None, mem_gb=None, cwd=None, stdout_path=None):
     return p.returncode, out, time.time() - t0, 0, timed_out
 
 
+_fixture_cache = {}
+def uses_fixture(h):
+    """harnesses built on vp_seed.h / vp_mini.h run library set-up code: they get the word-wise big mem* tier"""
+    p = src_path(h)
+    if p not in _fixture_cache:
+        try:
+            t = open(p).read()
+        except OSError:
+            t = ""
+        _fixture_cache[p] = ('"vp_seed.h"' in t) or ('"vp_mini.h"' in t)
+    return _fixture_cache[p]
+
+
 def defines_for(h, tier):
     d = dict(h.get("defines", {}))
+    if uses_fixture(h):
+        d.setdefault("VP_MEM_BIG", 4096)
     t = h["tiers"][tier]
     if isinstance(t, dict):
         d.update(t.get("defines", {}))
@@ -149,8 +164,8 @@ def build_goto(h, tier, wd, log):
 def cbmc_cmd(h, tier, gb):
     cmd = ["cbmc", gb, "--function", h["entry"], "--unwind", str(tier_opt(h, tier, "unwind", 2))]
     k = int(defines_for(h, tier).get("VP_MEM_K", 128)) + 1
-    big = int(defines_for(h, tier).get("VP_MEM_BIG", 4096)) // 8 + 1
-    uws = {"memcpy.0": k, "memcpy.1": k, "memcpy.2": big, "memmove.0": k, "memmove.1": k, "memmove.2": k, "memmove.3": k, "memset.0": k, "memset.1": big}
+    big = int(defines_for(h, tier).get("VP_MEM_BIG", 0)) // 8 + 1
+    uws = {"memcpy.0": k, "memcpy.1": k, "memcpy.2": big, "memmove.0": k, "memmove.1": k, "memmove.2": k, "memmove.3": k, "memmove.4": big, "memmove.5": big, "memset.0": k, "memset.1": big, "realloc.0": int(defines_for(h, tier).get("VP_REALLOC_K", 64)) + 1}
     for i in range(10):
         uws["vsnprintf.%d" % i] = 48
         uws["vp_put_unsigned.%d" % i] = 26
